@@ -1292,6 +1292,8 @@ def _writer_model(repo, mc, ml):
                     config_key_exists=ml.config_key_exists,
                     get_config_value_func=get_func)
     globs = {"dfn": dfn, "copy": Namespace("copy", deepcopy=_copy.deepcopy)}
+    from ..lib_C11 import module_level
+    module_level(repo.tree(WR), globs, interp, assigns=False)
 
     def store(meta):
         attrs = {}
@@ -1684,6 +1686,8 @@ def r114_rectify(ctx, repo):
                             f"recognised: {announced}")
     interp = Interp()
     g = {"h5py": Namespace("h5py", Dataset=H5Dataset, Group=H5Group)}
+    from ..lib_C11 import module_level
+    module_level(repo.tree(WR), g, interp, assigns=False)
     writer = ClassModel(repo.cls(WR, "RTDCWriter"), g, interp,
                         strict_instances=True)
 
